@@ -27,6 +27,7 @@ type Knobs struct {
 	PNotify         float64 // OnNewTransaction to a subscribed node when its pool is non-empty
 	PTxAtPoolRead   float64 // a transaction arrives right after an (empty) read of the verified pool, i.e. inside the library call
 	NotifyAll       bool    // deliver OnNewTransaction to every subscribed node as soon as a tx arrives
+	ObserverSync    bool    // nodes outside the current validator list copy finished blocks from peers at once (full-node block relay)
 	FIFO            bool    // always pick the oldest deliverable envelope / lowest node id (deterministic schedule)
 	SlowNode        int     // node with extra inbound latency (-1: none)
 	SlowExtra       time.Duration
@@ -62,6 +63,21 @@ func (c *Cluster) AllDone() bool {
 	any := false
 	for _, n := range c.Nodes {
 		if n.Role != Honest || !n.Live() {
+			continue
+		}
+		any = true
+		if n.Height() < c.TargetHeight() {
+			return false
+		}
+	}
+	return any
+}
+
+// AllValidatorsDone tells whether every live honest node that takes an active part reached the target height.
+func (c *Cluster) AllValidatorsDone() bool {
+	any := false
+	for _, n := range c.Nodes {
+		if n.Role != Honest || !n.Live() || n.D == nil || n.D.Validators == nil || n.D.Context.WatchOnly() {
 			continue
 		}
 		any = true
@@ -295,6 +311,9 @@ func (c *Cluster) Step(hooks *Hooks) bool {
 		}
 	}
 
+	if k.ObserverSync && c.observerSync() {
+		return true
+	}
 	if k.Sync {
 		return c.stepSync()
 	}
@@ -584,6 +603,29 @@ func (c *Cluster) LastFault() int64 { return c.lastFault }
 
 // NoteFault marks now as a fault instant.
 func (c *Cluster) NoteFault() { c.lastFault = c.Clock }
+
+// observerSync: a node that is outside the validator list of its current height is an ordinary
+// full node; it obtains a finished block from its peers as soon as one of them has it.
+func (c *Cluster) observerSync() bool {
+	for _, n := range c.Nodes {
+		if n.Role != Honest || !n.Live() || n.PendingReset || n.D.Validators == nil || n.D.MyIndex >= 0 {
+			continue
+		}
+		for _, m := range c.Nodes {
+			if m.ID == n.ID || m.Role != Honest {
+				continue
+			}
+			if b := m.BlockAt(n.Height() + 1); b != nil {
+				n.appendBlock(b, true)
+				n.Accepted = append(n.Accepted, AcceptRec{Height: b.Idx, Hash: b.Hash(), Clock: c.Clock, Seq: c.seq, Inst: n.Restarts, Synced: true})
+				c.Stats["observer-synced-blocks"]++
+				c.doReset(n)
+				return true
+			}
+		}
+	}
+	return false
+}
 
 // syncOne lets one node that is behind copy the next block from a peer.
 func (c *Cluster) syncOne() bool {
